@@ -163,6 +163,12 @@ def record_one(inst):
                resetrho=bool(up.get("growing.reset_rho", False)),
                maxnpt=int(max(npt0 or (n + 1), up.get("restarts.max_npt", 0), (npt0 or n + 1) + int(inst.get("incnpt") or 0))))
     enc = recorder.encode_events(dict(cfg=cfg, ev=ev))
+    if inst.get("rng_state") is not None:
+        # C19: the rank encoding is a function of the WHOLE trace (one new value anywhere shifts every rank), so the event-for-event comparison with the
+        # reference run is made on a digest of the raw event; the first differing digest is then the true first difference
+        import hashlib
+        for e_raw, e_enc in zip(ev, enc["ev"]):
+            e_enc["dg"] = hashlib.sha1(json.dumps(e_raw, sort_keys=True, default=repr).encode()).hexdigest()[:16]
     counts = {}
     for e in ev:
         counts[e["ev"]] = counts.get(e["ev"], 0) + 1
